@@ -1085,6 +1085,98 @@ def rule_type_twins(chk, prog):
     return n
 
 
+def rule_mode_mask(chk, pr, pg):
+    """O10: the listing carries every permission bit the parser takes.  The printer masks the inode's mode with a constant
+    before it prints it in octal; the parser accepts an octal number up to a constant limit (07777).  Every bit of that
+    limit is in the printer's mask, and no file type bit is: otherwise set-uid / set-gid / sticky are silently lost on the
+    way (or the line is refused)."""
+    limit = None
+    for f in pg.functions():
+        if f.decl or f.unit.src != "bin/gensquashfs/src/fstree_from_file.c":
+            continue
+        for c in f.build().calls():
+            if norm_callee(c.callee) in ("parse_uint_oct",) and len(c.ops) >= 5 and c.ops[4].is_const and c.ops[4].is_int:
+                limit = c.ops[4].uval if limit is None else max(limit, c.ops[4].uval)
+    if limit is None:
+        chk.note("O10: the pack file parser does not read the mode with parse_uint_oct and a constant limit: not decided")
+        return 0
+    n = 0
+    for f in pr.functions():
+        if f.decl or f.unit.src != "bin/rdsquashfs/src/describe.c":
+            continue
+        f.build()
+        for a in f.insts():
+            if a.op != "and":
+                continue
+            k = [o for o in a.ops if o.is_const and o.is_int]
+            v = [o for o in a.ops if not o.is_const]
+            if not k or not v:
+                continue
+            is_mode = any(x.is_inst and x.op == "load" and strip_casts(x.ops[0]).is_inst and strip_casts(x.ops[0]).op == "getelementptr"
+                          and strip_casts(x.ops[0]).fields() and strip_casts(x.ops[0]).fields()[-1][1] == "mode"
+                          for x in backward_slice(v[0], phi_control=False))
+            if not is_mode:
+                continue
+            to_print = False
+            work, seen = [a], set()
+            while work:
+                y = work.pop()
+                if id(y) in seen:
+                    continue
+                seen.add(id(y))
+                for u in f.uses.get(y, []):
+                    if u.op in ("zext", "sext", "trunc"):
+                        work.append(u)
+                    elif u.op == "call" and norm_callee(u.callee) in ("printf", "fprintf"):
+                        to_print = True
+            if not to_print:
+                continue
+            n += 1
+            chk.analysed(f)
+            m = k[0].uval & 0xFFFF
+            inst = "%s:mode-mask@%d" % (f.name, a.line)
+            if (m & limit) == limit and not (m & 0o170000):
+                chk.ok("O10", inst, a, "the printed mode keeps every bit the parser accepts (0%o) and no file type bit" % limit)
+            else:
+                chk.violation("O10", inst, a, "the mode is printed through the mask 0%o while the parser takes modes up to 0%o: the bits "
+                              "0%o (set-uid, set-gid, sticky) are dropped from the listing and the rebuilt image has other "
+                              "permissions" % (m, limit, limit & ~m))
+    return n
+
+
+def rule_unescape_once(chk, pg, tokenizer_units=("lib/util/src/split_line.c",)):
+    """O11: a token of a pack file line is unescaped once, by the tokenizer.  The printer escapes a backslash as two; after
+    the tokenizer made one of them again, no consumer of the tokens (the line handlers of gensquashfs) gives the backslash a
+    meaning of its own: no byte of a token is compared with '\\' outside the tokenizer.  A second decoding pass turns the
+    name `a\101` into `aA`."""
+    n = 0
+    for f in pg.functions():
+        if f.decl or f.unit.src != "bin/gensquashfs/src/fstree_from_file.c":
+            continue
+        f.build()
+        n += 1
+        chk.analysed(f)
+        hit = None
+        for i in f.insts():
+            if i.op == "icmp" and any(o.is_const and o.is_int and o.sval == 92 for o in i.ops):
+                v = [o for o in i.ops if not o.is_const]
+                if v:
+                    x = v[0]
+                    while x.is_inst and x.op in ("zext", "sext", "trunc"):
+                        x = x.ops[0]
+                    if x.is_inst and x.op == "load" and x.ty == "i8":
+                        hit = i
+            elif i.op == "switch" and any((k.sval if hasattr(k, "sval") else k) == 92 for k, _b in i.x["cases"]):
+                hit = i
+        inst = "%s:backslash" % f.name
+        if hit is None:
+            chk.ok("O11", inst, f, "no byte of a token is compared with the escape character behind the tokenizer", nontrivial=False)
+        else:
+            chk.violation("O11", inst, hit, "a consumer of the tokenizer's output compares a byte with '\\': the text is unescaped a "
+                          "second time, a name or target that contains a backslash (printed as two) comes back changed")
+    return n
+
+
 def run(chk):
     chk.explanation = (
         "The full round trip (describe -> pack-file -> same tree) is value-level and not decided. Decided is the lexical "
@@ -1093,7 +1185,7 @@ def run(chk):
         "specials are escaped (O3) and nothing else is (O4); escape and quote characters match (O5); no printed line starts "
         "with a line-start special (O6); every raw emission of a non-constant string is dominated by a negative quoting "
         "decision on that string (O7); escaping happens only inside quotes (O8); printed keywords and the device arity "
-        "match the parser's table (O9). A2-token: whatever is written directly in front of an opening quote and directly behind a closing quote is a separator, a line break or the edge of the output (neighbours looked up through calls and returns). K12-twins: a function that handles basic/extended inode type pairs as pairs handles none of them half; K10-chunkcut: the line reader's result does not depend on where its source cuts the chunks.")
+        "match the parser's table (O9). A2-token: whatever is written directly in front of an opening quote and directly behind a closing quote is a separator, a line break or the edge of the output (neighbours looked up through calls and returns). K12-twins: a function that handles basic/extended inode type pairs as pairs handles none of them half; K10-chunkcut: the line reader's result does not depend on where its source cuts the chunks. O10: the mask the printer applies to the mode keeps every bit of the parser's limit (07777) and no type bit; O11: behind the tokenizer no consumer of a token compares a byte with the escape character (one unescape only).")
     chk.assumptions = ["names containing a newline are excluded by the property", "istream_get_line yields the line without its terminator"]
     pg = load_program("gensquashfs")
     pr = load_program("rdsquashfs")
@@ -1116,6 +1208,10 @@ def run(chk):
     rule_token_integrity(chk, pr, Pr, L)
     rule_type_twins(chk, pr)
     chk.floor("K12-twins", 5)
+    rule_mode_mask(chk, pr, pg)
+    chk.floor("O10", 1)
+    rule_unescape_once(chk, pg)
+    chk.floor("O11", 3)
     rule_chunk_cut(chk, pg)
     chk.floor("K10-chunkcut", 1)
     rule_every_entry(chk, pr)
